@@ -146,6 +146,10 @@ pub enum Matcher {
     /// every emission at or after this virtual time
     FromTime(u64),
     KindAll(Kind),
+    /// every file-data PDU carrying this offset
+    FdOffset(u64),
+    /// every emission of this kind from its n-th occurrence on
+    KindFrom(Kind, usize),
 }
 #[derive(Clone, Debug, PartialEq)]
 pub enum Action {
@@ -196,6 +200,8 @@ pub enum Act {
     Inject(Ent, Vec<u8>),
     /// stop applying fault rules from now on
     HealLink,
+    /// add a fault rule from now on (e.g. a blackout that starts when a primitive is issued)
+    AddRule(Rule),
 }
 #[derive(Clone, Debug)]
 pub struct Script {
@@ -246,6 +252,8 @@ pub struct Scenario {
     pub probe: bool,
     /// send a Report primitive for every transaction at the end
     pub final_reports: bool,
+    /// files (Some) / directories (None) planted under an entity's root before the run
+    pub plant: Vec<(Ent, String, Option<Vec<u8>>)>,
 }
 
 // ------------------------------------------------------------------------------------ log
@@ -281,6 +289,8 @@ pub struct RunLog {
     pub tasks_alive_at_end: Vec<(TransactionID, TaskKind)>,
     pub budget_exceeded: bool,
     pub roots: Vec<String>,
+    /// complete tree of every real entity's root at the end of the observation window
+    pub trees: Vec<std::collections::BTreeMap<String, Option<Vec<u8>>>>,
 }
 #[derive(Clone, Debug)]
 pub struct ProbeResult {
@@ -504,6 +514,14 @@ impl Sched {
             self.dir_count.insert((ent, to), di + 1);
             self.dir_kind_count.insert((ent, to, kind), dk + 1);
             // which rules hit
+            let fd_off: Option<u64> = if kind == Kind::FileData {
+                match PDU::decode(&mut bytes.as_slice()) {
+                    Ok(PDU { payload: PDUPayload::FileData(FileDataPDU::Unsegmented(u)), .. }) => Some(u.offset),
+                    _ => None,
+                }
+            } else {
+                None
+            };
             let mut drop = false;
             let mut extra: Vec<u64> = vec![];
             let mut delay_ms = 0u64;
@@ -520,6 +538,8 @@ impl Sched {
                         Matcher::FromIdx(n) => di >= *n,
                         Matcher::FromTime(t) => now / 1000 >= *t,
                         Matcher::KindAll(k) => *k == kind,
+                        Matcher::KindFrom(k, n) => *k == kind && dk >= *n,
+                        Matcher::FdOffset(o) => fd_off == Some(*o),
                     };
                     if !hit {
                         continue;
@@ -655,6 +675,10 @@ impl Sched {
                 let at = self.slot(now + 1000);
                 self.push_item(at, ItemKind::Deliver { to, bytes, origin: None });
                 self.faults_applied += 1;
+            }
+            Act::AddRule(r) => {
+                self.shared.push(Ev::Note(format!("rule added: e{}->e{} {:?} {:?}", r.from, r.to, r.m, r.a)));
+                self.rules.push(r);
             }
             Act::HealLink => {
                 self.rules_on = false;
@@ -849,6 +873,21 @@ pub fn run(mut sc: Scenario, scratch: &str) -> RunLog {
             }
         }
     }
+    for (e, name, content) in &sc.plant {
+        if sc.entities[*e].scripted {
+            continue;
+        }
+        let p = format!("{}/{}", roots[*e], name);
+        match content {
+            None => std::fs::create_dir_all(&p).expect("plant dir"),
+            Some(c) => {
+                if let Some(i) = p.rfind('/') {
+                    let _ = std::fs::create_dir_all(&p[..i]);
+                }
+                std::fs::write(&p, c).expect("plant file")
+            }
+        }
+    }
     let mut seed_bytes = [0u8; 32];
     seed_bytes[..8].copy_from_slice(&sc.seed.to_le_bytes());
     seed_bytes[8..16].copy_from_slice(&sc.seed.wrapping_mul(0x9E3779B97F4A7C15).to_le_bytes());
@@ -1018,6 +1057,7 @@ pub fn run(mut sc: Scenario, scratch: &str) -> RunLog {
         }
         s.observe_files_force("end-of-window");
         let end_us = shared.now_us();
+        let trees: Vec<std::collections::BTreeMap<String, Option<Vec<u8>>>> = roots2.iter().map(|r| if r.is_empty() { Default::default() } else { snapshot_tree(r) }).collect();
         let alive_at_end = { let l = shared.log.lock().unwrap(); tasks_alive(&l) };
 
         // final reports: does the daemon still know the transaction?
@@ -1109,6 +1149,7 @@ pub fn run(mut sc: Scenario, scratch: &str) -> RunLog {
             tasks_alive_at_end: alive_at_end,
             budget_exceeded: shared.over_budget.load(Ordering::SeqCst),
             roots: roots2,
+            trees,
         }
     });
     drop(rt);
@@ -1121,6 +1162,30 @@ pub fn run(mut sc: Scenario, scratch: &str) -> RunLog {
 }
 
 // ------------------------------------------------------------------------------------ helpers
+
+fn snap_rec(base: &str, rel: &str, out: &mut std::collections::BTreeMap<String, Option<Vec<u8>>>) {
+    let dir = if rel.is_empty() { base.to_string() } else { format!("{}/{}", base, rel) };
+    if let Ok(rd) = std::fs::read_dir(&dir) {
+        for e in rd.flatten() {
+            let name = e.file_name().to_string_lossy().to_string();
+            let r = if rel.is_empty() { name } else { format!("{}/{}", rel, name) };
+            match e.file_type() {
+                Ok(t) if t.is_dir() => {
+                    out.insert(r.clone(), None);
+                    snap_rec(base, &r, out);
+                }
+                _ => {
+                    out.insert(r.clone(), Some(std::fs::read(format!("{}/{}", base, r)).unwrap_or_default()));
+                }
+            }
+        }
+    }
+}
+pub fn snapshot_tree(root: &str) -> std::collections::BTreeMap<String, Option<Vec<u8>>> {
+    let mut m = Default::default();
+    snap_rec(root, "", &mut m);
+    m
+}
 
 pub fn is_success(f: &cfdp_core::daemon::FinishedIndication) -> bool {
     f.report.condition == Condition::NoError && f.delivery_code == DeliveryCode::Complete && f.file_status == FileStatusCode::Retained
